@@ -444,6 +444,122 @@ def exists_view(cond, env, loop=None):
         def unset(e):
             return e.args[0] if isinstance(e, ast.Call) and nf.callee_name(e) in ('set', 'frozenset') and len(e.args) == 1 else e
         a, b = unset(a), unset(b)
-        if isinstance(a, ast.Name) and isinstance(b, ast.Name):
+        if isinstance(a, (ast.Name, ast.Attribute)) and isinstance(b, (ast.Name, ast.Attribute)):
             return a, '_v', nf.canon(ast.Compare(left=ast.Name(id='_v', ctx=ast.Load()), ops=[ast.NotIn()], comparators=[b]))
     return None
+
+
+# ------------------------------------------------------------------ scrubbing done by a context manager
+class ScrubManager(object):
+    """`with Mgr(scope, names) [as alias]:` where entering the manager removes every listed name from `scope`."""
+
+    def __init__(self, with_node, item, scope_arg, names_arg, alias, alias_same, where):
+        self.node = with_node
+        self.item = item
+        self.scope_arg = scope_arg      # expression handed in as the scope (a dict)
+        self.names_arg = names_arg      # expression handed in as the list of names
+        self.alias = alias              # `as` name or None
+        self.alias_same = alias_same    # True: __enter__ hands back the very scope object; False: something else; None: unknown
+        self.where = where
+
+
+def _removes_each(body, scope_is, names_is):
+    """Does the statement list remove `scope[k]` for EVERY k of the names (for loop or comprehension, pop or del,
+    unconditionally, no early exit)?"""
+    for s in body:
+        for n in ast.walk(s):
+            it = tgt = None
+            inner = []
+            if isinstance(n, ast.For) and isinstance(n.target, ast.Name) and names_is(n.iter):
+                if lib.loop_has_early_exit(n) or any(isinstance(x, ast.If) for x in n.body):
+                    continue
+                tgt, inner = n.target.id, n.body
+            elif isinstance(n, (ast.DictComp, ast.ListComp, ast.GeneratorExp, ast.SetComp)) and len(n.generators) == 1 \
+                    and isinstance(n.generators[0].target, ast.Name) and names_is(n.generators[0].iter) and not n.generators[0].ifs:
+                tgt, inner = n.generators[0].target.id, [n]
+            if tgt is None:
+                continue
+            for x in inner:
+                for y in ast.walk(x):
+                    if isinstance(y, ast.Call) and isinstance(y.func, ast.Attribute) and y.func.attr == 'pop' and scope_is(y.func.value) \
+                            and len(y.args) == 1 and name_of(y.args[0]) == tgt:
+                        return True
+                    if isinstance(y, ast.Delete) and any(isinstance(t, ast.Subscript) and scope_is(t.value) and name_of(t.slice) == tgt
+                                                         for t in y.targets):
+                        return True
+    return False
+
+
+def scrub_managers(idx, fi, root=None):
+    """All ScrubManager uses in fi (optionally below `root`)."""
+    out = []
+    for w in ast.walk(root or fi.node):
+        if not isinstance(w, ast.With):
+            continue
+        for item in w.items:
+            c = item.context_expr
+            if not (isinstance(c, ast.Call) and isinstance(c.func, (ast.Name, ast.Attribute))):
+                continue
+            d = idx.dotted_of(fi.module, c.func)
+            kind, obj = idx.resolve_dotted(d) if d else (None, None)
+            alias = name_of(item.optional_vars) if item.optional_vars is not None else None
+            if kind == 'class':
+                init, enter = idx.lookup(obj, '__init__'), idx.lookup(obj, '__enter__')
+                if init is None or enter is None:
+                    continue
+                params = init.params[1:]
+                amap = dict(zip(params, c.args))
+                for k in c.keywords:
+                    if k.arg:
+                        amap[k.arg] = k.value
+                attr_of = {}        # self attribute -> constructor parameter
+                for n in walk_own(init.node):
+                    if isinstance(n, ast.Assign) and len(n.targets) == 1 and isinstance(n.targets[0], ast.Attribute) \
+                            and name_of(n.targets[0].value) == init.params[0] and name_of(n.value) in params:
+                        attr_of[n.targets[0].attr] = n.value.id
+                eself = enter.params[0]
+                for sattr, sparam in attr_of.items():
+                    for nattr, nparam in attr_of.items():
+                        if sattr == nattr or sparam not in amap or nparam not in amap:
+                            continue
+
+                        def scope_is(e, a=sattr):
+                            return isinstance(e, ast.Attribute) and e.attr == a and name_of(e.value) == eself
+
+                        def names_is(e, a=nattr):
+                            return isinstance(e, ast.Attribute) and e.attr == a and name_of(e.value) == eself
+                        if _removes_each(enter.node.body, scope_is, names_is):
+                            rets = lib.returns_of(enter.node)
+                            same = None
+                            if rets and all(x.value is not None and scope_is(x.value) for x in rets):
+                                same = True
+                            elif rets and all(x.value is not None for x in rets):
+                                same = False
+                            out.append(ScrubManager(w, item, amap[sparam], amap[nparam], alias, same, lib.loc(fi, w)))
+            elif kind == 'func' and any('contextmanager' in dname for dname in obj.decorators):
+                params = obj.params
+                amap = dict(zip(params, c.args))
+                for k in c.keywords:
+                    if k.arg:
+                        amap[k.arg] = k.value
+                ys = [n for n in walk_own(obj.node) if isinstance(n, ast.Yield)]
+                if len(ys) != 1:
+                    continue
+                for sp in params:
+                    for np_ in params:
+                        if sp == np_ or sp not in amap or np_ not in amap:
+                            continue
+                        pre = [s for s in obj.node.body if getattr(s, 'lineno', 0) < ys[0].lineno and not any(y is ys[0] for y in ast.walk(s))]
+                        if _removes_each(pre, lambda e, a=sp: name_of(e) == a, lambda e, a=np_: name_of(e) == a):
+                            same = True if name_of(ys[0].value) == sp else (False if ys[0].value is not None else None)
+                            out.append(ScrubManager(w, item, amap[sp], amap[np_], alias, same, lib.loc(fi, w)))
+    return out
+
+
+def resolve_scope_alias(idx, fi, name):
+    """If `name` is the `as` target of a scrub manager that hands back the very scope object it was given, the name of that
+    scope; otherwise `name`."""
+    for m in scrub_managers(idx, fi):
+        if m.alias == name and m.alias_same and isinstance(m.scope_arg, ast.Name):
+            return m.scope_arg.id
+    return name
